@@ -130,32 +130,41 @@ class SimFS:
 # --------------------------------------------------------------------------
 
 class SimClock:
-    """Seconds since the epoch, advanced only by the case (jumps)."""
+    """Seconds since the epoch (UTC), advanced only by the case (jumps), and
+    the simulated local zone as a fixed offset east of UTC in seconds."""
 
-    def __init__(self, start):
+    def __init__(self, start, tz_offset=0):
         self.now = float(start)
+        self.tz_offset = int(tz_offset)
         self.reads = 0
 
     def read(self):
         self.reads += 1
         return self.now
 
+    def local(self):
+        return self.read() + self.tz_offset
+
 
 def make_fake_datetime_module(clock: SimClock):
     """A stand-in for the `datetime` module whose notion of *now* is the
-    simulated clock.  Everything else is the real thing."""
+    simulated clock and whose local zone is the simulated one.  Everything else
+    is the real thing."""
 
-    def _utc(ts):
+    def _naive(ts):
         return _real_datetime.datetime(1970, 1, 1) + _real_datetime.timedelta(seconds=ts)
 
     class _DateTime(_real_datetime.datetime):
         @classmethod
+        def _from_naive(cls, d):
+            return cls(d.year, d.month, d.day, d.hour, d.minute, d.second, d.microsecond)
+
+        @classmethod
         def now(cls, tz=None):
-            d = _utc(clock.read())
-            d = cls(d.year, d.month, d.day, d.hour, d.minute, d.second, d.microsecond)
-            if tz is not None:
-                d = d.replace(tzinfo=_real_datetime.timezone.utc).astimezone(tz)
-            return d
+            if tz is None:
+                return cls._from_naive(_naive(clock.local()))
+            d = cls._from_naive(_naive(clock.read()))
+            return d.replace(tzinfo=_real_datetime.timezone.utc).astimezone(tz)
 
         @classmethod
         def today(cls):
@@ -163,12 +172,28 @@ def make_fake_datetime_module(clock: SimClock):
 
         @classmethod
         def utcnow(cls):
-            return cls.now()
+            return cls._from_naive(_naive(clock.read()))
+
+        @classmethod
+        def fromtimestamp(cls, ts, tz=None):
+            if tz is None:
+                return cls._from_naive(_naive(ts + clock.tz_offset))
+            d = cls._from_naive(_naive(ts))
+            return d.replace(tzinfo=_real_datetime.timezone.utc).astimezone(tz)
+
+        @classmethod
+        def utcfromtimestamp(cls, ts):
+            return cls._from_naive(_naive(ts))
 
     class _Date(_real_datetime.date):
         @classmethod
         def today(cls):
-            d = _utc(clock.read())
+            d = _naive(clock.local())
+            return cls(d.year, d.month, d.day)
+
+        @classmethod
+        def fromtimestamp(cls, ts):
+            d = _naive(ts + clock.tz_offset)
             return cls(d.year, d.month, d.day)
 
     class _Mod:
@@ -234,14 +259,20 @@ class FakeTime:
         c = self.clock
         rt = _real_time
         self._saved = {n: getattr(rt, n) for n in ("time", "localtime", "gmtime", "strftime")}
+        for n in ("time_ns",):
+            if hasattr(rt, n):
+                self._saved[n] = getattr(rt, n)
         real_gmtime, real_strftime = rt.gmtime, rt.strftime
         self.fakes = {
             "time": lambda: c.read(),
             "gmtime": lambda secs=None: real_gmtime(c.read() if secs is None else secs),
-            "localtime": lambda secs=None: real_gmtime(c.read() if secs is None else secs),
+            "localtime": lambda secs=None: real_gmtime(
+                (c.read() if secs is None else secs) + c.tz_offset),
             "strftime": lambda fmt, t=None: real_strftime(
-                fmt, real_gmtime(c.read()) if t is None else t),
+                fmt, real_gmtime(c.local()) if t is None else t),
         }
+        if "time_ns" in self._saved:
+            self.fakes["time_ns"] = lambda: int(c.read() * 1_000_000_000)
         for n, f in self.fakes.items():
             setattr(rt, n, f)
 
